@@ -109,9 +109,13 @@ def mzi_programs():
 
 
 def load_corpus(prop):
+    """fixed programs of a check: the corpus of past failures, the closed-form sweep (C11) and the
+    directed cell matrix (one program per call kind x entry x storage location x level)"""
+    import cells
+    fixed = _load_corpus_files(prop)
     if prop == "C11":
-        return mzi_programs() + _load_corpus_files(prop)
-    return _load_corpus_files(prop)
+        fixed = mzi_programs() + fixed
+    return fixed + cells.cell_programs(prop)
 
 
 def _load_corpus_files(prop):
@@ -267,7 +271,8 @@ def run_program_check(prop, tier, seed):
         "routing_calls_compared": S["route_checked"],
         "routing_mismatches": len(S["routes"]),
         "proof_problems": tie_problems,
-        "corpus_programs": len(fixed),
+        "corpus_programs": len([r for r in fixed if "cell" not in r["program"]]),
+        "directed_cell_programs": len([r for r in fixed if "cell" in r["program"]]),
     }
     if extra:
         cov["decision_logic_cases"] = extra["cases"]
